@@ -83,7 +83,8 @@ def checkCsv : P String := do
     let nrec := match stdRecs with
       | some rs => rs.length
       | none => 0
-    pure s!"c10={c10} corr={corr} nontrivial={if nrec ≥ 2 then 1 else 0} st_status={st} st_std={sst}"
+    let c20 := if st == "panic" then "fail:panic" else "ok"
+    pure s!"c10={c10} c20={c20} corr={corr} nontrivial={if nrec ≥ 2 then 1 else 0} st_status={st} st_std={sst}"
   else if kind == "RT" then
     let f ← pFrame
     expect "W"
@@ -113,7 +114,8 @@ def checkCsv : P String := do
     | .err _, none => pure ()
     | _, _ => corr := firstFail corr "fail:status"
     let special := bytes.any (fun b => b == 34)
-    pure s!"c09={c09} corr={corr} nontrivial={if inDomain && f.nrows ≥ 1 && special then 1 else 0} st_domain={if inDomain then 1 else 0}"
+    let c20 := if st == "panic" || wst == "panic" then "fail:panic" else "ok"
+    pure s!"c09={c09} c20={c20} corr={corr} nontrivial={if inDomain && f.nrows ≥ 1 && special then 1 else 0} st_domain={if inDomain then 1 else 0}"
   else throw s!"bad csv case {kind}"
 
 end Goframe.Driver
